@@ -532,7 +532,10 @@ func runC19(c *Ctx) {
 		for _, cl := range compositeLitsAny(ctor, "pkg/wal.walChannels") {
 			for _, el := range cl.Elts {
 				if kv, ok := el.(*ast.KeyValueExpr); ok {
-					set[kv.Key.(*ast.Ident).Name] = true
+					// the field must be given a channel that was made (a declared-but-nil channel blocks forever)
+					if strings.HasPrefix(describeExpr(ctor, kv.Value, 0), "call:builtin.make(") {
+						set[kv.Key.(*ast.Ident).Name] = true
+					}
 				}
 			}
 		}
@@ -1104,17 +1107,89 @@ func runC22(c *Ctx) {
 			c.check(bad == "", "order-only", fid, p.Pos(f.Decl.Pos()), "offsets are only compared, subtracted for a length, passed to min or turned into keys", fid+" uses an offset in "+bad+": the tracker's answers must depend only on the relative order of offsets")
 		}
 	}
+	// roles of trackWrite's variables, inferred from definitions and uses (never from names)
+	var walker *ast.FuncLit
+	for _, l := range tw.Lits {
+		if sig, ok := info.TypeOf(l).(*types.Signature); ok && sig.Params().Len() == 2 && sig.Results().Len() == 1 {
+			walker = l
+		}
+	}
+	if walker == nil {
+		undecided("trackWrite no longer has a walker callback")
+	}
+	roles := map[types.Object]string{}
+	isCallTo := func(fi *FuncInfo, id string) func(ast.Expr) bool {
+		return func(e ast.Expr) bool {
+			call, ok := ast.Unparen(e).(*ast.CallExpr)
+			return ok && calleeID(fi.Info(), call) == id
+		}
+	}
+	if se := lhsVars(info, tw.Decl.Body, isCallTo(tw, "pkg/filetracker.getFileRange")); len(se) == 2 && se[0] != nil && se[1] != nil {
+		roles[se[0]], roles[se[1]] = "start", "end"
+	}
+	// walker parameters
+	var wk, wv types.Object
+	{
+		var names []*ast.Ident
+		for _, fl := range walker.Type.Params.List {
+			names = append(names, fl.Names...)
+		}
+		if len(names) == 2 {
+			wk, wv = info.Defs[names[0]], info.Defs[names[1]]
+			roles[wk], roles[wv] = "k", "v"
+		}
+	}
+	if vs := lhsVars(info, walker.Body, func(e ast.Expr) bool {
+		ta, ok := ast.Unparen(e).(*ast.TypeAssertExpr)
+		if !ok {
+			return false
+		}
+		id, ok := ast.Unparen(ta.X).(*ast.Ident)
+		return ok && info.Uses[id] == wv
+	}); len(vs) == 1 && vs[0] != nil {
+		roles[vs[0]] = "isStart"
+	}
+	if vs := lhsVars(info, walker.Body, func(e ast.Expr) bool {
+		call, ok := ast.Unparen(e).(*ast.CallExpr)
+		if !ok || calleeID(info, call) != "pkg/filetracker.getOffset" || len(call.Args) != 1 {
+			return false
+		}
+		id, ok := ast.Unparen(call.Args[0]).(*ast.Ident)
+		return ok && info.Uses[id] == wk
+	}); len(vs) == 1 && vs[0] != nil {
+		roles[vs[0]] = "key"
+	}
+	// the two inside-flags: the variable guarding the insert of the start marker is "before", of the end marker "after"
+	for _, st := range tw.Decl.Body.List {
+		ifs, ok := st.(*ast.IfStmt)
+		if !ok || len(ifs.Body.List) != 1 {
+			continue
+		}
+		es, ok := ifs.Body.List[0].(*ast.ExprStmt)
+		if !ok {
+			continue
+		}
+		call, ok := es.X.(*ast.CallExpr)
+		if !ok || !strings.HasSuffix(calleeID(info, call), "Txn.Insert") || len(call.Args) != 2 {
+			continue
+		}
+		u, ok := ast.Unparen(ifs.Cond).(*ast.UnaryExpr)
+		if !ok || u.Op != token.NOT {
+			continue
+		}
+		id, ok := ast.Unparen(u.X).(*ast.Ident)
+		if !ok {
+			continue
+		}
+		switch roleString(info, call.Args[1], roles) {
+		case "startFlag":
+			roles[info.Uses[id]] = "insideBefore"
+		case "endFlag":
+			roles[info.Uses[id]] = "insideAfter"
+		}
+	}
 	// (b) walker
 	{
-		var walker *ast.FuncLit
-		for _, l := range tw.Lits {
-			if sig, ok := info.TypeOf(l).(*types.Signature); ok && sig.Params().Len() == 2 && sig.Results().Len() == 1 {
-				walker = l
-			}
-		}
-		if walker == nil {
-			undecided("trackWrite no longer has a walker callback")
-		}
 		var sw *ast.SwitchStmt
 		ast.Inspect(walker.Body, func(nd ast.Node) bool {
 			if s, ok := nd.(*ast.SwitchStmt); ok && s.Tag == nil {
@@ -1130,19 +1205,19 @@ func runC22(c *Ctx) {
 				cc := st.(*ast.CaseClause)
 				cond := "default"
 				if len(cc.List) == 1 {
-					cond = normCmp(cc.List[0], "key")
+					cond = roleCmp(info, cc.List[0], roles, "key")
 				}
 				var acts []string
 				for _, s2 := range cc.Body {
 					switch x := s2.(type) {
 					case *ast.AssignStmt:
-						acts = append(acts, exprString(x.Lhs[0])+"="+exprString(x.Rhs[0]))
+						acts = append(acts, roleString(info, x.Lhs[0], roles)+"="+roleString(info, x.Rhs[0], roles))
 					case *ast.ExprStmt:
 						if call, ok := x.X.(*ast.CallExpr); ok {
 							acts = append(acts, shortCallee(calleeID(info, call)))
 						}
 					case *ast.ReturnStmt:
-						acts = append(acts, "return "+exprString(x.Results[0]))
+						acts = append(acts, "return "+roleString(info, x.Results[0], roles))
 					}
 				}
 				sort.Strings(acts)
@@ -1153,17 +1228,39 @@ func runC22(c *Ctx) {
 			c.check(got == want, "walker.partition", tw.ID, p.Pos(sw.Pos()), got,
 				"the walker classifies markers as ["+got+"], expected ["+want+"]: markers before start set both inside-flags, markers in [start,end] (boundaries included) are removed and set the after-flag, the first marker past end stops the walk")
 		}
-		// isStart is the marker's flag
-		okFlag := false
-		ast.Inspect(walker.Body, func(nd ast.Node) bool {
-			if as, ok := nd.(*ast.AssignStmt); ok && len(as.Lhs) == 1 && exprString(as.Lhs[0]) == "isStart" {
-				if ta, ok := as.Rhs[0].(*ast.TypeAssertExpr); ok && describeExpr(tw, ta.X, 0) == "litparam" {
-					okFlag = true
-				}
+		// isStart is the marker's flag, key its offset; the range comes from the call's own (offset, length); both
+		// inside-flags start false (no range is open before the first marker)
+		nFlags := 0
+		for o, r := range roles {
+			if r == "isStart" || r == "key" {
+				_ = o
+				nFlags++
+			}
+		}
+		c.check(nFlags == 2, "walker.partition", tw.ID+":flag", p.Pos(walker.Pos()), "isStart is the marker's stored flag and key its decoded offset", "the walker no longer reads the marker's flag from its value and its offset from its key")
+		okRange := false
+		ast.Inspect(tw.Decl.Body, func(nd ast.Node) bool {
+			if call, ok := nd.(*ast.CallExpr); ok && calleeID(info, call) == "pkg/filetracker.getFileRange" && len(call.Args) == 2 {
+				okRange = describeExpr(tw, call.Args[0], 0) == "param#0" && describeExpr(tw, call.Args[1], 0) == "param#1"
 			}
 			return true
 		})
-		c.check(okFlag, "walker.partition", tw.ID+":flag", p.Pos(walker.Pos()), "isStart is the marker's stored flag", "isStart is no longer the flag stored with the marker")
+		c.check(okRange, "walker.range", tw.ID, p.Pos(tw.Decl.Pos()), "[start,end) = getFileRange(offset, length) of this call", "the tracked range is no longer getFileRange(offset, length) of the call's own arguments in that order")
+		okInit := 0
+		for o, r := range roles {
+			if r != "insideBefore" && r != "insideAfter" {
+				continue
+			}
+			v := o.(*types.Var)
+			for _, d := range defsOfVarWithIndex(tw, v) {
+				if d.rhs != nil && d.start < walker.Pos() {
+					if val, isConst := isBoolConst(info, d.rhs); isConst && !val {
+						okInit++
+					}
+				}
+			}
+		}
+		c.check(okInit == 2, "walker.flags-start-false", tw.ID, p.Pos(tw.Decl.Pos()), "both inside-flags are false before the walk", "an inside-flag does not start false: with no marker before the new range its start (or end) marker is not inserted and the write is not tracked")
 	}
 	// insertion
 	{
@@ -1181,7 +1278,7 @@ func runC22(c *Ctx) {
 			if !ok || !strings.HasSuffix(calleeID(info, call), "Txn.Insert") {
 				continue
 			}
-			rows = append(rows, exprString(ifs.Cond)+" => Insert("+exprString(call.Args[0])+","+exprString(call.Args[1])+")")
+			rows = append(rows, roleString(info, ifs.Cond, roles)+" => Insert("+roleString(info, call.Args[0], roles)+","+roleString(info, call.Args[1], roles)+")")
 		}
 		sort.Strings(rows)
 		got := strings.Join(rows, " | ")
@@ -1209,7 +1306,7 @@ func runC22(c *Ctx) {
 		okEmpty := false
 		for _, st := range tw.Decl.Body.List {
 			if ifs, ok := st.(*ast.IfStmt); ok {
-				cnd := normCmp(ifs.Cond, "end")
+				cnd := roleCmp(info, ifs.Cond, roles, "end")
 				if (cnd == "end<=start" || cnd == "end<start") && blockDiverts(ifs.Body.List) {
 					okEmpty = cnd == "end<=start"
 				}
@@ -1243,13 +1340,80 @@ func runC22(c *Ctx) {
 	// (c) getRangeToRead
 	{
 		g := p.Func("pkg/filetracker.TFile.getRangeToRead")
-		var sw *ast.SwitchStmt
+		ginfo := g.Info()
+		gr := map[types.Object]string{}
+		gsig := g.Obj.Type().(*types.Signature)
+		if gsig.Params().Len() == 2 {
+			gr[gsig.Params().At(0)], gr[gsig.Params().At(1)] = "offset", "len"
+		}
+		// results: `return contiguous, storage`
 		ast.Inspect(g.Decl.Body, func(nd ast.Node) bool {
-			if s, ok := nd.(*ast.SwitchStmt); ok && s.Tag == nil {
-				sw = s
+			if _, isLit := nd.(*ast.FuncLit); isLit {
+				return false
+			}
+			if r, ok := nd.(*ast.ReturnStmt); ok && len(r.Results) == 2 {
+				if a, ok := ast.Unparen(r.Results[0]).(*ast.Ident); ok {
+					gr[ginfo.Uses[a]] = "contiguous"
+				}
+				if b2, ok := ast.Unparen(r.Results[1]).(*ast.Ident); ok {
+					gr[ginfo.Uses[b2]] = "storage"
+				}
 			}
 			return true
 		})
+		var gw *ast.FuncLit
+		for _, l := range g.Lits {
+			if sig, ok := ginfo.TypeOf(l).(*types.Signature); ok && sig.Params().Len() == 2 && sig.Results().Len() == 1 {
+				gw = l
+			}
+		}
+		var sw *ast.SwitchStmt
+		if gw != nil {
+			var names []*ast.Ident
+			for _, fl := range gw.Type.Params.List {
+				names = append(names, fl.Names...)
+			}
+			var gk, gv types.Object
+			if len(names) == 2 {
+				gk, gv = ginfo.Defs[names[0]], ginfo.Defs[names[1]]
+			}
+			if vs := lhsVars(ginfo, gw.Body, func(e ast.Expr) bool {
+				ta, ok := ast.Unparen(e).(*ast.TypeAssertExpr)
+				if !ok {
+					return false
+				}
+				id, ok := ast.Unparen(ta.X).(*ast.Ident)
+				return ok && ginfo.Uses[id] == gv
+			}); len(vs) == 1 && vs[0] != nil {
+				gr[vs[0]] = "isStart"
+				if es := lhsVars(ginfo, gw.Body, func(e ast.Expr) bool {
+					u, ok := ast.Unparen(e).(*ast.UnaryExpr)
+					if !ok || u.Op != token.NOT {
+						return false
+					}
+					id, ok := ast.Unparen(u.X).(*ast.Ident)
+					return ok && ginfo.Uses[id] == vs[0]
+				}); len(es) == 1 && es[0] != nil {
+					gr[es[0]] = "isEnd"
+				}
+			}
+			if vs := lhsVars(ginfo, gw.Body, func(e ast.Expr) bool {
+				call, ok := ast.Unparen(e).(*ast.CallExpr)
+				if !ok || calleeID(ginfo, call) != "pkg/filetracker.getOffset" || len(call.Args) != 1 {
+					return false
+				}
+				id, ok := ast.Unparen(call.Args[0]).(*ast.Ident)
+				return ok && ginfo.Uses[id] == gk
+			}); len(vs) == 1 && vs[0] != nil {
+				gr[vs[0]] = "key"
+			}
+			ast.Inspect(gw.Body, func(nd ast.Node) bool {
+				if s, ok := nd.(*ast.SwitchStmt); ok && s.Tag == nil {
+					sw = s
+				}
+				return true
+			})
+		}
 		if sw == nil {
 			c.fail("range-to-read", g.ID, p.Pos(g.Decl.Pos()), "getRangeToRead no longer classifies markers with a switch")
 		} else {
@@ -1262,15 +1426,15 @@ func runC22(c *Ctx) {
 				conj := conjuncts(cc.List[0])
 				var cs []string
 				for _, cj := range conj {
-					cs = append(cs, normCmp(cj, "key"))
+					cs = append(cs, roleCmp(ginfo, cj, gr, "key"))
 				}
 				var acts []string
 				for _, s2 := range cc.Body {
 					switch x := s2.(type) {
 					case *ast.AssignStmt:
-						acts = append(acts, exprString(x.Lhs[0])+"="+nos(exprString(x.Rhs[0])))
+						acts = append(acts, roleString(ginfo, x.Lhs[0], gr)+"="+nos(roleString(ginfo, x.Rhs[0], gr)))
 					case *ast.ReturnStmt:
-						acts = append(acts, "return "+exprString(x.Results[0]))
+						acts = append(acts, "return "+roleString(ginfo, x.Results[0], gr))
 					}
 				}
 				sort.Strings(acts)
@@ -1279,8 +1443,28 @@ func runC22(c *Ctx) {
 			sort.Strings(rows)
 			got := strings.Join(rows, " | ")
 			want := "isEnd&&key<=offset => return !terminate,storage=base | isEnd&&key>offset => contiguous=min(key-offset,len),return terminate,storage=mutable | isStart&&key<=offset => return !terminate,storage=mutable | isStart&&key>offset => contiguous=min(key-offset,len),return terminate,storage=base"
-			c.check(got == want, "range-to-read", g.ID, p.Pos(sw.Pos()), got, "getRangeToRead classifies markers as ["+got+"], expected ["+want+"]: each marker kind must be handled for key<=offset and key>offset, and a range returned from an offset must stop at the next marker")
+			c.check(got == want, "range-to-read", g.ID, p.Pos(sw.Pos()), got, "getRangeToRead classifies markers as ["+got+"], expected ["+want+"]: each marker kind must be handled for key<=offset and key>offset (isEnd being the negation of the marker's start flag), and a range returned from an offset must stop at the next marker")
 		}
+		// initial answer: the whole request from the base file
+		initOK := 0
+		for o, r := range gr {
+			v, isVar := o.(*types.Var)
+			if !isVar {
+				continue
+			}
+			for _, d := range defsOfVarWithIndex(g, v) {
+				if d.rhs == nil || (gw != nil && d.start > gw.Pos()) {
+					continue
+				}
+				if r == "contiguous" && roleString(ginfo, d.rhs, gr) == "len" {
+					initOK++
+				}
+				if r == "storage" && roleString(ginfo, d.rhs, gr) == "base" {
+					initOK++
+				}
+			}
+		}
+		c.check(initOK == 2, "range-to-read.initial", g.ID, p.Pos(g.Decl.Pos()), "without markers the whole request is served from the base file", "getRangeToRead no longer starts from (len, base): a file without tracked writes is not read entirely from the base")
 	}
 }
 
